@@ -1,5 +1,5 @@
 (* C08 / C18 runner (AnimEncoder model).  Input, one case per line:
-     enc <px|al|st> W H loop kmin kmax lossless mixed quality simple n
+     enc <px|al|st> W H loop kmin kmax lossless mixed quality meta simple n
          { iw ih dur obg okey oa ob oc pixhex }*n
      qmd q | san kmin kmax | fcr W H hexprev hexcurr | snap x0 y0 x1 y1
      sim r g b a r g b a md | lpx fix r g b a r g b a
@@ -34,7 +34,7 @@ let id (i : M.img) = i
 
 let () = iter_lines (fun line ->
   match split_ws line with
-  | "enc" :: mode :: w :: h :: loop :: kmin :: kmax :: ll :: mixed :: q :: simple :: _n :: rest ->
+  | "enc" :: mode :: w :: h :: loop :: kmin :: kmax :: ll :: mixed :: q :: meta :: simple :: _n :: rest ->
     let fixes = M.repaired in  (* the model of the code under test; not selectable *)
     let rec frames r = match r with
       | iw :: ih :: dur :: obg :: okey :: oa :: ob :: oc :: pix :: tl ->
@@ -53,7 +53,7 @@ let () = iter_lines (fun line ->
      | None -> print_endline "I nil"
      | Some st0 ->
        let st = M.run_frames fixes oracle st0 fs in
-       (match M.close (b simple) st with
+       (match M.close (b meta) (b simple) st with
         | None -> print_endline "I noframes"
         | Some out ->
           let pb = M.playback id id fixes out in
